@@ -9,6 +9,7 @@ import (
 	"fmt"
 	"math/rand"
 	"reflect"
+	"strings"
 	"syscall"
 
 	"github.com/cosmos/cosmos-proto/zzverif/glue"
@@ -128,9 +129,13 @@ func nilToEmpty(rv reflect.Value, depth int) {
 				continue
 			}
 			fv := rv.Field(i)
-			if _, ok := sf.Tag.Lookup("protobuf"); ok {
+			if tag, ok := sf.Tag.Lookup("protobuf"); ok {
 				switch fv.Kind() {
 				case reflect.Slice:
+					if fv.Type().Elem().Kind() == reflect.Uint8 && !strings.Contains(tag, "proto3") {
+						// a proto2 optional bytes field has presence: nil and empty are different values
+						continue
+					}
 					if fv.IsNil() {
 						fv.Set(reflect.MakeSlice(fv.Type(), 0, 0))
 						continue
